@@ -216,7 +216,7 @@ func (c *Ctx) oblige(kind, name, guard, cond string) *Obl {
 		o.Pos = c.W.fset.Position(c.curPos)
 	}
 	c.obls = append(c.obls, o)
-	if kind != "cover" && kind != "canary" && goal != "true" {
+	if (kind == "safety" || kind == "requires" || kind == "assert") && goal != "true" && !strings.Contains(goal, "(forall ") && !strings.Contains(goal, "(exists ") {
 		// assert-then-assume: the continuation may rely on what was just required
 		c.items = append(c.items, Item{Kind: "assert", Body: goal})
 	}
@@ -370,6 +370,25 @@ func (c *Ctx) assumeValid(guard string, v Val) {
 		if strings.HasSuffix(l.Path, "#len") || strings.HasSuffix(l.Path, "#off") {
 			c.assume(guard, app("bvult", v.L[i], lenBound))
 		}
+		if strings.HasSuffix(l.Path, "#base") && i+2 < len(ls) {
+			// a nil slice has no elements
+			c.assume(guard, tImp(tEq(v.L[i], "null"), tAnd(tEq(v.L[i+1], bvU(0, 64)), tEq(v.L[i+2], bvU(0, 64)))))
+		}
+	}
+}
+
+// nilSliceFacts: slices read from the heap obey "nil base => empty" (every slice value the program builds does).
+func (c *Ctx) nilSliceFacts(v Val) {
+	if v.T == nil || v.P != nil {
+		return
+	}
+	if _, ok := v.T.Underlying().(*types.Slice); ok && len(v.L) == 3 {
+		key := "nsf:" + v.L[0] + v.L[2]
+		if c.declared[key] {
+			return
+		}
+		c.declared[key] = true
+		c.items = append(c.items, Item{Kind: "assert", Body: tImp(tEq(v.L[0], "null"), tAnd(tEq(v.L[1], bvU(0, 64)), tEq(v.L[2], bvU(0, 64))))})
 	}
 }
 
@@ -379,7 +398,11 @@ func (c *Ctx) strLit(s string) string {
 	if n, ok := c.strLits[s]; ok {
 		return n
 	}
-	name := fmt.Sprintf("strlit!%d", len(c.strLits))
+	if s == "" {
+		c.strLits[s] = "strlit!empty"
+		return "strlit!empty"
+	}
+	name := fmt.Sprintf("strlit!%d", len(c.strLits)+1)
 	c.strLits[s] = name
 	// declared at emission time together with distinctness
 	return name
@@ -416,7 +439,28 @@ func (c *Ctx) comp(st *State, key, sort string) string {
 	c.compSort[key] = sort
 	name := c.freshComp(key, sort)
 	c.initial[key] = name
+	c.closedAxiom(key, sort, name)
 	return name
+}
+
+// closedAxiom: in the entry heap, references stored in allocated objects point to allocated objects.
+func (c *Ctx) closedAxiom(key, sort, name string) {
+	if key == "alloc" {
+		return
+	}
+	a0, ok := c.initial["alloc"]
+	if !ok {
+		return
+	}
+	switch {
+	case sort == arrSort(SRef, SRef):
+		c.items = append(c.items, Item{Kind: "assert", Body: fmt.Sprintf("(forall ((r Ref)) (! (=> (select %s r) (select %s (select %s r))) :pattern ((select %s r))))", a0, a0, name, name)})
+	case sort == arrSort(SRef, arrSort(bvSort(64), SRef)) && strings.HasPrefix(key, "E|"):
+		c.items = append(c.items, Item{Kind: "assert", Body: fmt.Sprintf("(forall ((r Ref) (i (_ BitVec 64))) (! (=> (select %s r) (select %s (select (select %s r) i))) :pattern ((select (select %s r) i))))", a0, a0, name, name)})
+	case strings.HasPrefix(key, "MV|") && strings.HasSuffix(sort, " Ref))"):
+		ks := strings.TrimSuffix(strings.TrimPrefix(sort, "(Array Ref (Array "), " Ref))")
+		c.items = append(c.items, Item{Kind: "assert", Body: fmt.Sprintf("(forall ((r Ref) (k %s)) (! (=> (select %s r) (select %s (select (select %s r) k))) :pattern ((select (select %s r) k))))", ks, a0, a0, name, name)})
+	}
 }
 
 // freshComp declares a fresh version of a component together with its well-formedness axioms.
@@ -465,6 +509,7 @@ func (c *Ctx) loadFieldVal(st *State, S types.Type, field int, ref string) Val {
 		key := "F|" + c.structKey(S) + "." + f.Name() + l.Path
 		v.L[i] = tSel(c.comp(st, key, arrSort(SRef, l.Sort)), ref)
 	}
+	c.nilSliceFacts(v)
 	return v
 }
 
@@ -516,6 +561,10 @@ func (c *Ctx) subRef(S types.Type, field int, ref string) string {
 		inv := name + "_inv"
 		c.declFun(inv, SRef, SRef)
 		c.items = append(c.items, Item{Kind: "assert", Body: fmt.Sprintf("(forall ((r Ref)) (! (and (= (%s (%s r)) r) (not (= (%s r) null)) (not (= (%s r) r))) :pattern ((%s r))))", inv, name, name, name, name)})
+		if a0, ok := c.initial["alloc"]; ok {
+			// an embedded struct exists exactly when its enclosing object does
+			c.items = append(c.items, Item{Kind: "assert", Body: fmt.Sprintf("(forall ((r Ref)) (! (= (select %s (%s r)) (select %s r)) :pattern ((%s r))))", a0, name, a0, name)})
+		}
 	}
 	return app(name, ref)
 }
@@ -527,6 +576,7 @@ func (c *Ctx) loadElem(st *State, E types.Type, base, idx string) Val {
 		key := "E|" + c.typeKey(E) + l.Path
 		v.L[i] = tSel(tSel(c.comp(st, key, arrSort(SRef, arrSort(bvSort(64), l.Sort))), base), idx)
 	}
+	c.nilSliceFacts(v)
 	return v
 }
 
@@ -687,13 +737,17 @@ func (c *Ctx) mapMake(st *State, mi mapInfo, m string) {
 	c.setComp(st, "MD|"+mi.key, arrSort(SRef, arrSort(mi.ksort, SBool)), tStore(dom, m, fmt.Sprintf("((as const %s) false)", arrSort(mi.ksort, SBool))))
 }
 
-// mapLenFacts: len == 0 <=> empty domain (asserted on demand at len() reads)
+// mapLen: len(m); the link between length and emptiness is asserted without quantifier alternation:
+//   len == 0 ==> no key present ;  len != 0 ==> some (witness) key present.
 func (c *Ctx) mapLen(st *State, guard string, mi mapInfo, m string) string {
 	lc := c.mapLenComp(st, mi)
 	dom := c.mapDom(st, mi)
 	l := tIte(tEq(m, "null"), bvU(0, 64), tSel(lc, m))
 	row := tSel(dom, m)
-	c.assume(guard, fmt.Sprintf("(= (= %s %s) (forall ((k %s)) (not (select %s k))))", tSel(lc, m), bvU(0, 64), mi.ksort, row))
+	isZero := tEq(tSel(lc, m), bvU(0, 64))
+	c.assume(guard, tImp(isZero, fmt.Sprintf("(forall ((k %s)) (! (not (select %s k)) :pattern ((select %s k))))", mi.ksort, row, row)))
+	wit := c.fresh("witness", mi.ksort)
+	c.assume(guard, tImp(tNot(isZero), tSel(row, wit)))
 	return l
 }
 
